@@ -124,6 +124,10 @@ func cmdWorker(args []string) {
 	out := fs.String("out", "", "output json")
 	repo := fs.String("repo", "/repo", "")
 	fs.Parse(args)
+	if os.Getenv("GOVC_NO_REPLAY") == "" {
+		globalCexHook = replayHook
+		replayRepo = *repo
+	}
 	P, err := loadProgram(*repo)
 	must(err)
 	db, err := loadContracts(P, *repo)
@@ -165,6 +169,7 @@ func cmdCheck(args []string) {
 	verif := fs.String("verif", "/verif", "")
 	workers := fs.Int("workers", 10, "")
 	noEvidence := fs.Bool("no-evidence", false, "do not write evidence / replays (selftest mode)")
+	replaysTo := fs.String("replays", "", "write replay files below this directory (also with -no-evidence)")
 	fs.Parse(args)
 	t0 := time.Now()
 	seed := 0
@@ -287,11 +292,17 @@ func cmdCheck(args []string) {
 	}
 	discharged := 0
 	violations := 0
+	byBackend := map[string]int{}
 	var knownMatched []string
 	var undecided []string
 	var samples []interface{}
 	replayDir := filepath.Join(*verif, "replays", *prop)
-	if !*noEvidence {
+	writeReplays := !*noEvidence
+	if *replaysTo != "" {
+		replayDir = filepath.Join(*replaysTo, *prop)
+		writeReplays = true
+	}
+	if writeReplays {
 		os.RemoveAll(replayDir)
 	}
 	type viol struct{ line string }
@@ -303,6 +314,9 @@ func cmdCheck(args []string) {
 		names[full] = true
 		if o.Failed+o.Undec == 0 {
 			discharged++
+			for k, v := range o.By {
+				byBackend[k] += v
+			}
 			if len(samples) < 8 && (o.Class == "POST" || o.Class == "SAFE.assert" || o.Class == "INV.keep" || o.Class == "PRE" || len(samples) < 3) {
 				samples = append(samples, map[string]interface{}{"obligation": full, "class": o.Class, "path_instances": o.Inst, "solver": o.By, "secs": round3(o.Secs)})
 			}
@@ -335,7 +349,7 @@ func cmdCheck(args []string) {
 			}
 		}
 		body += "\n--- SMT script of the failed obligation ---\n" + o.Script
-		if !*noEvidence {
+		if writeReplays {
 			os.MkdirAll(replayDir, 0o755)
 			os.WriteFile(rp, []byte(body), 0o644)
 		}
@@ -344,7 +358,7 @@ func cmdCheck(args []string) {
 	for i, e := range errors {
 		violations++
 		rp := filepath.Join(replayDir, fmt.Sprintf("error-%d.txt", i))
-		if !*noEvidence {
+		if writeReplays {
 			os.MkdirAll(replayDir, 0o755)
 			os.WriteFile(rp, []byte("the function could not be verified (fail closed):\n"+e+"\n"), 0o644)
 		}
@@ -363,7 +377,7 @@ func cmdCheck(args []string) {
 		if len(base) > 0 && float64(len(all)) < 0.9*float64(len(base)) {
 			violations++
 			rp := filepath.Join(replayDir, "vacuity-obligation-count.txt")
-			if !*noEvidence {
+			if writeReplays {
 				os.MkdirAll(replayDir, 0o755)
 				os.WriteFile(rp, []byte(fmt.Sprintf("only %d obligations generated, baseline has %d: code under contract disappeared\n", len(all), len(base))), 0o644)
 			}
@@ -433,6 +447,7 @@ func cmdCheck(args []string) {
 				"callee_contracts_used":    ctr,
 				"per_class_counts":         perClass,
 				"solver_time_s":            timeBy,
+				"path_instances_discharged_by_backend": byBackend,
 				"solver_checks":            checks,
 				"paths":                    paths,
 				"vacuity":                  vac,
